@@ -91,10 +91,13 @@ class Ocp(Stage):
                 augmented._var_original = self
                 self._var_augmented = augmented
                 augmented._placeholders = self._placeholders
-                
-                return self._augmented._transcribed
+
+                augmented._transcribe()
+                return augmented
         else:
-            self._transcribe()
+            # A copy is transcribed once, when it is made (above). It may since have become stale
+            # (kept alive by an old solution object): it must not transcribe itself again on behalf
+            # of an original that was modified in the meantime.
             return self
         
     def transcribe(self,**kwargs):
